@@ -203,7 +203,8 @@ func (c *conn) send(msg *kmip.ResponseMessage) error {
 		return err
 	}
 	tx := c.tx.Load().(chan txMsg)
-	errCh := make(chan error)
+	// Buffered: the write loop reports its result even when nobody waits for it anymore
+	errCh := make(chan error, 1)
 	select {
 	case tx <- txMsg{msg: msg, err: errCh}:
 		select {
